@@ -162,6 +162,12 @@ func (e *EndpointExporter) setCommonAttributes(
 		param = param.AsOptional()
 	}
 	if param.Type == object {
+		if param.Schema == nil {
+			param.Schema = &spec.Schema{}
+		}
+		if param.Schema.ExtraProps == nil {
+			param.Schema.ExtraProps = map[string]interface{}{}
+		}
 		param.Schema.ExtraProps["$ref"] = "#/definitions/" + param.Format
 	}
 }
